@@ -1,3 +1,5 @@
+//go:build go1.21
+
 // Package vquiet stands in for "sync" in rewritten files (import sync ".../vsched/vquiet").
 package vquiet
 
